@@ -1331,9 +1331,10 @@ impl Sim {
                 vis.push(None);
             }
         }
-        // Link groups: union-find over LinkTo edges among replicated entities.
+        // Link groups: union-find over the LinkTo edges of replicated sources. The target only has to be
+        // alive (an unreplicated hub still connects the entities that point at it).
         let keys: Vec<u64> = ents.keys().copied().collect();
-        let mut parent: BTreeMap<u64, u64> = keys.iter().map(|k| (*k, *k)).collect();
+        let mut parent: BTreeMap<u64, u64> = self.slots.iter().flatten().map(|e| (e.to_bits(), e.to_bits())).collect();
         fn find(p: &mut BTreeMap<u64, u64>, x: u64) -> u64 {
             let mut r = x;
             while p[&r] != r {
@@ -1349,7 +1350,7 @@ impl Sim {
         }
         for (e, comps) in &ents {
             if let Some(Val::Ent(t)) = comps.get(&Kind::Link) {
-                if ents.contains_key(t) {
+                if parent.contains_key(t) {
                     let (a, b) = (find(&mut parent, *e), find(&mut parent, *t));
                     if a != b {
                         parent.insert(a, b);
